@@ -102,6 +102,66 @@ fn cycle_source(blocks: usize, r: usize, kind: usize) -> String {
     s
 }
 
+/// Self-referring definitions in every position a name can be mentioned: (name, source, mentions per definition).
+/// A local `a` mentions `target` m times, each mention wrapped in one expression context; `target` is `a` itself,
+/// a second local that mentions `a` back, the input `st` one of whose fields mentions `a`, or `a` bound twice
+/// (harmless first / circular second and the other way round). Undetected, the analyzer's passes grow the
+/// definition m-fold each; with m = 1 nothing grows and the program only has to be refused or lowerable (C13).
+pub fn cycle_shapes() -> Vec<(String, String, usize)> {
+    let contexts: [(&str, fn(&str) -> String); 17] = [
+        ("plain", |n| n.to_string()),
+        ("add", |n| format!("{n} + 1")),
+        ("negate", |n| format!("!{n}")),
+        ("property-operand", |n| format!("{n}.counter")),
+        ("index", |n| format!("xs[{n}]")),
+        ("index-of-field", |n| format!("st.limits[{n}]")),
+        ("record-field", |n| format!("S {{ counter: {n}, limits: [], }}")),
+        ("spread", |n| format!("S {{ counter: 1, ...{n} }}")),
+        ("list", |n| format!("[{n}]")),
+        ("map-key", |n| format!("{{ {n}: 1, }}")),
+        ("map-value", |n| format!("{{ 1: {n}, }}")),
+        ("asset-arg", |n| format!("Ada({n})")),
+        ("anyasset-arg", |n| format!("AnyAsset(0xAB, \"T\", {n})")),
+        ("concat-arg", |n| format!("concat({n}, 0xAB)")),
+        ("time_to_slot-arg", |n| format!("time_to_slot({n})")),
+        ("slot_to_time-arg", |n| format!("slot_to_time({n})")),
+        ("paren", |n| format!("({n})")),
+    ];
+    let mut out = vec![];
+    for (cname, ctx) in contexts.iter() {
+        for m in [1usize, 2, 3, 6, 12] {
+            let mentions = |target: &str| -> String {
+                let items: Vec<String> = (0..m).map(|_| ctx(target)).collect();
+                if m == 1 {
+                    items[0].clone()
+                } else {
+                    format!("[{}]", items.join(", "))
+                }
+            };
+            let program = |locals: &str, input_extra: &str| {
+                format!(
+                    "type S {{\n    counter: Int,\n    limits: List<Int>,\n}}\nparty P;\ntx t(q: Int, xs: List<Int>) {{\n    locals {{\n{locals}    }}\n    input st {{\n        from: P,\n        datum_is: S,\n        min_amount: Ada(q),\n{input_extra}    }}\n    output {{\n        to: P,\n        amount: st - fees,\n    }}\n}}\n"
+                )
+            };
+            let mut push = |kind: &str, src: String| out.push((format!("cycle-shape:{kind}:{cname}:{m}"), src, m));
+            push("self", program(&format!("        a: {},\n", mentions("a")), ""));
+            push("two-locals", program(&format!("        a: {},\n        b: {},\n", mentions("b"), mentions("a")), ""));
+            push("dup-harmless-first", program(&format!("        a: 1,\n        a: {},\n", mentions("a")), ""));
+            push("dup-circular-first", program(&format!("        a: {},\n        a: 1,\n", mentions("a")), ""));
+            for (fname, field) in [
+                ("min_amount", "        min_amount: Ada(q) + a,\n"),
+                ("redeemer", "        redeemer: a,\n"),
+                ("ref", "        ref: a,\n"),
+            ] {
+                // the input's own field replaces / adds to the plain block
+                let extra = if fname == "min_amount" { field.to_string() } else { field.to_string() };
+                push(&format!("via-input-{fname}"), program(&format!("        a: {},\n", mentions("st")), &extra));
+            }
+        }
+    }
+    out
+}
+
 /// Heuristic classification used only to name the family of a case that was killed: does some local or
 /// input (transitively) refer to itself? (analysis cost is exponential in the number of such references)
 pub fn has_reference_cycle(src: &str) -> bool {
@@ -156,6 +216,27 @@ pub fn cycle_kind(src: &str) -> Option<&'static str> {
     if graph_has_cycle(&aliases) {
         return Some("alias-cycle");
     }
+    if graph_has_cycle(&reference_defs(&toks)) {
+        Some("reference-cycle")
+    } else {
+        None
+    }
+}
+
+/// true when some local / input reaches itself and some definition mentions other definitions more than once:
+/// only then can the analyzer's passes multiply anything (one mention per definition grows nothing)
+pub fn reference_cycle_can_grow(src: &str) -> bool {
+    let toks: Vec<String> = tokens::lex(src).into_iter().map(|t| t.text).collect();
+    let defs = reference_defs(&toks);
+    if !graph_has_cycle(&defs) {
+        return false;
+    }
+    let names: std::collections::HashSet<&String> = defs.iter().map(|(n, _)| n).collect();
+    defs.iter().any(|(_, body)| body.iter().filter(|t| names.contains(t)).count() > 1)
+}
+
+/// locals and inputs of a source with the tokens of their definitions
+fn reference_defs(toks: &[String]) -> Vec<(String, Vec<String>)> {
     let mut defs: Vec<(String, Vec<String>)> = vec![];
     let mut i = 0;
     while i < toks.len() {
@@ -216,11 +297,7 @@ pub fn cycle_kind(src: &str) -> Option<&'static str> {
         }
         i += 1;
     }
-    if graph_has_cycle(&defs) {
-        Some("reference-cycle")
-    } else {
-        None
-    }
+    defs
 }
 
 /// top-level definition shapes: type graphs (records / aliases referring to each other and to themselves),
@@ -293,7 +370,7 @@ impl Prop for C12 {
              every execution with <= {} deviations (other alternative / optional present / 1-2 repetitions / other literal from the boundary alphabets) \
              inside the rule is derived, depth <= 12; (2) token mutation: every token of every example program ({}) x {{delete, duplicate, swap, \
              replace by each of 24 tokens, literal stretching}}; (3) nesting: 9 recursive shapes x every depth 1..64; (4) cycles of mutually referring \
-             inputs / locals; (5) definition shapes: all type graphs over two records x five alias forms, policy / asset definitions over 10 expressions x 5 contexts. Each string: parse_string, then analyze if it parsed. Non-trivial = the call sequence ran (returned, panicked or was killed); \
+             inputs / locals, and self-referring definitions in 17 expression contexts x 7 ways of closing the cycle (itself, a second local, an input's min_amount / redeemer / ref, a name bound twice) x 1, 2, 3, 6, 12 mentions; (5) definition shapes: all type graphs over two records x five alias forms, policy / asset definitions over 10 expressions x 5 contexts. Each string: parse_string, then analyze if it parsed. Non-trivial = the call sequence ran (returned, panicked or was killed); \
              distinct = distinct source strings.",
             grammar_k(tier),
             if tier.is_thorough() { "all files" } else { "files whose analysis is fast" }
@@ -348,6 +425,9 @@ impl Prop for C12 {
             token_mutants(&toks, &mut |m, i, t| {
                 sink.case(|| json!({"kind": format!("tokmut-{m}"), "file": name, "token": i, "src": tokens::join(&t)}));
             });
+        }
+        for (name, src, m) in cycle_shapes() {
+            sink.case(|| json!({"kind": name, "mentions": m, "src": src}));
         }
         // reference cycles (analysis cost grows as r^passes)
         let rmax = if tier.is_thorough() { 5 } else { 3 };
